@@ -113,3 +113,80 @@ def run_property(prop, tier="quick", root="/repo", jobs=None, out=print, evidenc
     if bad:
         return 2
     return code
+
+
+# ---------------------------------------------------------------------------
+# all properties on one tree in one pool (used by tools/seedcheck.py): workers keep one Analysis each, and the
+# jobs of one class are bundled so that the context graphs built for one property are reused by the others.
+# The verdict per property is computed exactly as in run_property (same units, same finalize, same known list).
+# ---------------------------------------------------------------------------
+def _bundle_worker(job):
+    root, bundle, tier = job
+    return [_worker((prop, root, unit, tier)) + (prop,) for prop, unit in bundle]
+
+
+def run_multi(props, root="/repo", jobs=None, tier="quick"):
+    """-> {prop: (exit code, [unlisted violation keys], [analysis errors])}"""
+    from .report import load_known
+    out = {}
+    mods = {}
+    A = None
+    try:
+        A = _analysis(root)
+    except AnalysisError as e:
+        return {p: (2, [], [str(e)]) for p in props}
+    except Exception:
+        return {p: (2, [], [traceback.format_exc()[-600:]]) for p in props}
+    units = {}
+    for p in props:
+        try:
+            mods[p] = importlib.import_module(f"vsa.rules.{p.lower()}")
+            units[p] = mods[p].units(A, tier)
+        except AnalysisError as e:
+            out[p] = (2, [], [str(e)])
+        except Exception:
+            out[p] = (2, [], [traceback.format_exc()[-600:]])
+    bundles = {}
+    for p, us in units.items():
+        if p in out:
+            continue
+        for u in us:
+            # the two halves of a class: write-oriented and read-oriented properties share few graphs
+            half = "w" if p in ("C01", "C04", "C09", "C10", "C11", "C16", "C03", "C18") else "r"
+            key = (u[0], u[1], half) if u[0] == "class" else (u[0], u[1], p)
+            bundles.setdefault(key, []).append((p, u))
+    joblist = [(root, b, tier) for _, b in sorted(bundles.items(), key=lambda kv: -len(kv[1]))]
+    jobs = jobs or min(16, os.cpu_count() or 1)
+    if jobs > 1 and len(joblist) > 1:
+        ctx = mp.get_context("fork")
+        with ctx.Pool(min(jobs, len(joblist))) as pool:
+            results = pool.map(_bundle_worker, joblist, chunksize=1)
+    else:
+        results = [_bundle_worker(j) for j in joblist]
+    reps = {p: Report(p) for p in units if p not in out}
+    errs = {p: [] for p in reps}
+    for res in results:
+        for status, unit, payload, p in res:
+            if status != "ok":
+                errs[p].append(f"unit={unit}: {str(payload)[-500:]}")
+            else:
+                reps[p].merge(payload)
+    known_all = load_known()[0]
+    for p, rep in reps.items():
+        try:
+            if hasattr(mods[p], "finalize"):
+                mods[p].finalize(A, rep, tier)
+        except AnalysisError as e:
+            errs[p].append(str(e))
+        code = 0
+        for what, got, minimum in rep.floors:
+            if got < minimum:
+                errs[p].append(f"instance floor not met: {what}: {got} < {minimum}")
+        known = known_all.get(p, {})
+        keys = sorted(k for k in rep.findings if k not in known)
+        if keys:
+            code = 1
+        if errs[p]:
+            code = 2 if not keys else 1
+        out[p] = (code, keys, errs[p])
+    return out
